@@ -99,6 +99,47 @@ func enumPairs(tier string, yield func(pairCase) bool) {
 		n++
 		return yield(pairCase{A: a, B: b, EA: enumEncs[n%3], EB: enumEncs[(n/3)%3]})
 	}
+	// a ring of exactly 257 segments (item number 256 is the first that needs two bytes in the compressed
+	// indexes) and one of 259, probed at every boundary lattice point
+	for _, w := range []int64{65, 66} {
+		// the ring starts at (64,2) and ends at (64,0): its last, implicit closing segment (64,0)-(64,2) is the one
+		// two-unit segment and lies on the right side, where the rightward rays of interior points cross it
+		var ring []exact.P
+		for y := int64(2); y < w; y++ {
+			ring = append(ring, exact.P{X: 64, Y: y})
+		}
+		for x := int64(64); x > 0; x-- {
+			ring = append(ring, exact.P{X: x, Y: w})
+		}
+		for y := w; y > 0; y-- {
+			ring = append(ring, exact.P{X: 0, Y: y})
+		}
+		for x := int64(0); x <= 64; x++ {
+			ring = append(ring, exact.P{X: x, Y: 0})
+		}
+		a := exact.Shape{K: exact.KPoly, Ext: ring}
+		emit := func(a, b exact.Shape) bool { // every probe under every index configuration
+			for _, enc := range enumEncs {
+				if !yield(pairCase{A: a, B: b, EA: enc, EB: enc}) {
+					return false
+				}
+			}
+			return true
+		}
+		for _, e := range a.Boundary() {
+			for _, p := range []exact.P{e.A, {X: (e.A.X + e.B.X) / 2, Y: (e.A.Y + e.B.Y) / 2}} {
+				for _, d := range []exact.P{{X: 1, Y: 0}, {X: -1, Y: 0}, {X: 0, Y: 1}, {X: 0, Y: -1}} {
+					q := exact.P{X: p.X + d.X, Y: p.Y + d.Y}
+					if !emit(a, exact.Shape{K: exact.KLine, Line: []exact.P{p, q}}) || !emit(a, exact.Shape{K: exact.KPoint, Pt: q}) {
+						return
+					}
+				}
+				if !emit(a, exact.Shape{K: exact.KPoint, Pt: p}) || !emit(a, exact.Shape{K: exact.KRect, Min: p, Max: p}) {
+					return
+				}
+			}
+		}
+	}
 	for _, bs := range baseShapes() {
 		variants := []exact.Shape{bs.s}
 		swap := func(p exact.P) exact.P { return exact.P{X: p.Y, Y: p.X} }
@@ -149,6 +190,56 @@ func enumPairs(tier string, yield func(pairCase) bool) {
 					}
 				}
 			}
+			// boundary-to-boundary segments under every rotation and both directions of the exterior ring: the
+			// contact case analysis sees the ring's segments in ring order, so the start vertex matters
+			if a.K == exact.KPoly {
+				var onB []exact.P
+				bnd := a.Boundary()
+				for _, p := range all {
+					for _, e := range bnd {
+						if exact.OnSeg(e, exact.Lat(p)) {
+							onB = append(onB, p)
+							break
+						}
+					}
+				}
+				ext := exact.Unclose(a.Ext)
+				for r := 1; r < len(ext); r++ {
+					rot := a
+					rot.Ext = rotateRing(a.Ext, r)
+					if r%2 == 1 {
+						rot.Ext = reverseSeq(rot.Ext)
+					}
+					for _, p := range onB {
+						for _, q := range onB {
+							if p == q {
+								continue
+							}
+							if !emit(rot, exact.Shape{K: exact.KLine, Line: []exact.P{p, q}}) {
+								return
+							}
+						}
+					}
+				}
+			}
+			// shapes of 16 and more positions (the rectangle shortcut of ringContainsRing): every rect of the even
+			// lattice as a 16-vertex ring and as a 16-position line, against the base scaled by two
+			if a.K == exact.KPoly && len(a.Holes) > 0 {
+				dbl := func(p exact.P) exact.P { return exact.P{X: 2 * p.X, Y: 2 * p.Y} }
+				a2 := mapShape(a, dbl)
+				for _, p := range even {
+					for _, q := range even {
+						if p.X >= q.X || p.Y >= q.Y {
+							continue
+						}
+						ring := []exact.P{dbl(p), dbl(exact.P{X: q.X, Y: p.Y}), dbl(q), dbl(exact.P{X: p.X, Y: q.Y}), dbl(p)}
+						dense := densifySeq(ring, 3)
+						if !emit(a2, exact.Shape{K: exact.KPoly, Ext: dense}) || !emit(a2, exact.Shape{K: exact.KLine, Line: dense}) {
+							return
+						}
+					}
+				}
+			}
 			if thorough {
 				// three-point polylines on the even lattice
 				for _, p := range even {
@@ -165,4 +256,4 @@ func enumPairs(tier string, yield func(pairCase) bool) {
 	}
 }
 
-const enumPairsSpace = "17 base shapes, the concave ones also with x and y exchanged (convex, L, U, comb, notch, star, with 1-2 holes, collinear vertices, lines, rects) on the even 7x7 lattice x every point, every 2-point line and every rect of the 13x13 half-lattice and every triangle of a sub-lattice (thorough: a second encoding of each base, all triangles of the even lattice, all 3-point polylines), index none / R-tree / quadtree rotating"
+const enumPairsSpace = "17 base shapes, the concave ones also with x and y exchanged (convex, L, U, comb, notch, star, with 1-2 holes, collinear vertices, lines, rects) on the even 7x7 lattice x every point, every 2-point line and every rect of the 13x13 half-lattice and every triangle of a sub-lattice (thorough: a second encoding of each base, all triangles of the even lattice, all 3-point polylines), every boundary-to-boundary segment under every rotation of the exterior ring; for bases with holes every even-lattice rect as a 16-vertex ring and line; index none / R-tree / quadtree rotating"
